@@ -13,7 +13,11 @@ TypeOK) and its labelled state graph is replayed as a transition tour on the rea
 * on `ToJson` / `Schema` edges the exported schema must be `Export(G)`; the reference `jsonschema` validator
   (python3-vt subprocess) must give the specification's verdicts on `to_json()` (three-way agreement);
 * on `ToSimple` edges the converted SimpleGrammar has the same names/required/defaults and accepts what
-  `ConversionMustAccept` says.
+  `ConversionMustAccept` says;
+* every edit that leaves a state in which a lazily built view was requested is followed by the same query
+  (staleness paths), and deep random histories from TLC's simulation mode are replayed the same way.
+`PydanticGrammar` is driven through the operations whose meaning it shares (elements, merge, rename, delete,
+restrict, clear, pickle, copy; an element is required exactly when its field has no default).
 GrammarImpl.tla (lazily compiled validator and cached schema of the JSON grammar, the required-names object
 of a copy) is checked by TLC with the coherent rules and with the rules of the code as read.
 The JSON grammar files shipped with gemseo are loaded and compared with the reference validator, and with
@@ -36,6 +40,8 @@ EDITS = ["UpdateFromNames", "UpdateFromTypes", "UpdateFromData", "Update", "Rest
 REJECTS = ["RejectDefault", "RejectRequire", "RejectRestrict", "RejectDelete"]
 QUERIES_JSON = ["Validate", "Schema", "ToJson", "ToSimple", "Repr"]
 QUERIES_SIMPLE = ["Validate", "Repr"]
+PYDANTIC_EDITS = ["UpdateFromNames", "UpdateFromTypes", "UpdateFromData", "RestrictTo", "Rename", "Delete", "Clear",
+                  "Pickle"]
 INVARIANTS = ["TypeOK", "WellFormed"]
 
 
@@ -48,18 +54,27 @@ def cfg(cls, ops, *, atoms, dkinds=("iarr",), nslots=1, max_elems=2, max_atoms=2
     s += "SPECIFICATION Spec\nCONSTRAINT Bound\nCHECK_DEADLOCK FALSE\n"
     for i in INVARIANTS:
         s += f"INVARIANT {i}\n"
-    return s
+    return s + "PROPERTY QueriesPure\nPROPERTY CopyEqual\n"
 
 
 def configs(ck: Check, cls: str):
     """(name, ops, cfg keywords, require_actions).  Several focused alphabets instead of one product."""
     js = cls == "json"
-    q = QUERIES_JSON if js else QUERIES_SIMPLE
     t = ck.thorough
+    if cls == "pydantic":
+        # the shared operations: an element is required exactly when its field has no default, i.e. always for
+        # the elements these operations create; required_names / defaults edits do not reach the model
+        ops = PYDANTIC_EDITS + ["RejectRestrict", "RejectDelete", "Validate", "Repr"]
+        cops = ["UpdateFromNames", "UpdateFromTypes", "Copy", "Delete", "Rename", "Validate"]
+        return [("types", ops, dict(atoms=["Int", "Num", "Str"] if t else ["Int", "Num"], dkinds=("iarr", "str") if t else ("iarr",),
+                                    depth=3 if t else 2, max_elems=3 if t else 2), ops),
+                ("copy", cops, dict(atoms=["Int"], nslots=2, depth=4 if t else 3, max_elems=2), cops)]
+    q = QUERIES_JSON if js else QUERIES_SIMPLE
+    q1 = q if t else [x for x in q if x != "Repr"]
     out = []
     # 1. definition edits x types (merge for JSON), no defaults
     ops = ["UpdateFromNames", "UpdateFromTypes", "UpdateFromData", "RestrictTo", "Rename", "Delete", "Clear",
-           "Pickle", "Unrequire", "Require", "RejectRestrict", "RejectDelete", "RejectRequire"] + q
+           "Pickle", "Unrequire", "Require", "RejectRestrict", "RejectDelete", "RejectRequire"] + q1
     if not js:
         ops.append("RejectMerge")
     atoms = ["Int", "Num", "Str", "Arr", "Bool", "Any"] if t else ["Int", "Num", "Arr"]
@@ -70,11 +85,11 @@ def configs(ck: Check, cls: str):
     # 2. defaults, update from another grammar, namespaces
     ops = ["UpdateFromTypes", "Update", "SetDefault", "DelDefault", "Rename", "Delete", "RestrictTo",
            "AddNamespace", "Pickle", "Unrequire", "RejectDefault"] + q
-    out.append(("defaults", ops, dict(atoms=["Int", "Str"] if t else ["Int"], depth=4 if t else 3,
-                                      max_elems=3 if t else 2), ops))
+    out.append(("defaults", ops, dict(atoms=["Int", "Str"] if t else ["Int"], depth=4 if t else 3, max_elems=2), ops))
     # 3. copies: two grammar objects
-    ops = ["UpdateFromNames", "UpdateFromTypes", "Copy", "Unrequire", "Require", "Delete", "SetDefault", "Rename",
-           "Validate"] + (["ToJson"] if js else [])
+    ops = ["UpdateFromNames", "UpdateFromTypes", "Copy", "Unrequire", "Delete", "Validate"]
+    if t:
+        ops += ["Require", "SetDefault", "Rename"] + (["ToJson"] if js else [])
     out.append(("copy", ops, dict(atoms=["Int"], nslots=2, depth=4 if t else 3, max_elems=2), ops))
     # 4. schemas and files (JSON only)
     if js:
@@ -253,6 +268,9 @@ class Tour:
         key = gkey(G)
         flags = prev["q"][s - 1]
         if action == "Validate":
+            # validate(data, raise_exception=False) never raises and returns nothing (the other convention)
+            self.ck.guard("ValidateMeaning", self.sig("ValidateMeaning", action, hist, convention="no_exception"),
+                          impl.slots[s].validate, {"zz": None}, raise_exception=False)
             for d, ok in self.oracle.probes[key]:
                 got = impl.accepts(s, I.data_of(d))
                 self.n_probes += 1
@@ -284,10 +302,12 @@ class Tour:
                 self.ref.add(impl.to_json(s), [I.jsonable(I.data_of(d)) for d, _ in pr], [ok for _, ok in pr],
                              {"class": self.cls, "what": "tour_state"}, self.detail(path, k, slot=s))
         elif action == "ToSimple":
-            sig = self.sig("ConversionTotal", action, hist)
-            ok, simple = self.ck.guard("ConversionTotal", sig, impl.slots[s].to_simple_grammar)
-            if not ok:
-                self.ck.violations and self.ck.violations[-1]["detail"].update(self.detail(path, k, slot=s, elems=G["elems"]))
+            try:
+                simple = impl.slots[s].to_simple_grammar()
+            except Exception as ex:  # noqa: BLE001 - the conversion is total in the specification
+                self.ck.violation("ConversionTotal",
+                                  self.sig("ConversionTotal", action, hist, exception=type(ex).__name__),
+                                  self.detail(path, k, slot=s, elems=G["elems"], exception=repr(ex)))
                 return
             obs = {"elems": I.anames(simple.keys()), "req": I.anames(simple.required_names),
                    "dflt": {I.aname(a): I._DEFAULT_IDS.get(v, repr(v)) for a, v in simple.defaults.items()}}
@@ -323,7 +343,7 @@ class Tour:
         except Exception:  # noqa: BLE001 - reported where the edge is compared
             pass
 
-    def run_path(self, path):
+    def run_path(self, path, full_from=None):
         """Replay one path of the tour.  Returns the number of edges executed before a divergence."""
         gr = self.gr
         impl = I.Impl(self.cls, self.oracle.others, self.ck.work)
@@ -335,7 +355,7 @@ class Tour:
             self.n_steps += 1
             is_query = action in QUERIES_JSON
             if is_query:
-                if j not in self.heavy_done:
+                if j not in self.heavy_done or (full_from is not None and k >= full_from):
                     self.query(impl, state, prev, action, args, hist, path, k)
                     self.heavy_done.add(j)
                 else:  # already compared on another path: only the effect of the call (lazily built views)
@@ -366,11 +386,42 @@ class Tour:
                         self.query(impl, state, state, "Validate", (s_,), hist, path, k)
         return len(path)
 
+    def staleness_paths(self, paths, par):
+        """fill a lazily built view -> edit -> query again: every edit edge that leaves a state in which a view
+        of the edited grammar was requested is followed, on some path, by the same query (a transition tour alone
+        covers the query edge of the target state once, possibly after another edit)."""
+        gr = self.gr
+        need = {}
+        for j, (src, dst, action, args) in enumerate(gr.edges):
+            if action in QUERIES_JSON or src not in par:
+                continue
+            slot = 2 if action == "Copy" else args[0]
+            flags = gr.states[src]["q"][(1 if action == "Copy" else slot) - 1]
+            want = ({"Validate"} if flags["val"] else set()) | ({"Schema"} if flags["sch"] else set())
+            if want:
+                need[j] = (slot, want)
+        for p in paths:
+            for x, y in zip(p, p[1:]):
+                if x in need and gr.edges[y][2] in need[x][1] and gr.edges[y][3][0] == need[x][0]:
+                    need[x][1].discard(gr.edges[y][2])
+        extra = []
+        for j, (slot, want) in need.items():
+            dst = gr.edges[j][1]
+            qs = [k for k in gr.out.get(dst, ()) if gr.edges[k][2] in want and gr.edges[k][3][0] == slot]
+            if qs:
+                pre = gr.path_to(gr.edges[j][0], par) + [j]
+                extra.append((pre + sorted(qs, key=lambda k: gr.edges[k][2], reverse=True), len(pre)))
+        return extra
+
     def run(self, max_len):
         gr = self.gr
         paths = gr.tour(max_len)
         for p in paths:
             self.run_path(p)
+        extra = self.staleness_paths(paths, gr.bfs_tree())
+        for p, k0 in extra:
+            self.run_path(p, full_from=k0)  # the queries after the edit are compared again
+        self.n_staleness_paths = len(extra)
         # edges lost behind a divergence (known findings cut a path short): retry each by its shortest path
         par = gr.bfs_tree()
         missed = [j for j in range(len(gr.edges)) if j not in self.covered and gr.edges[j][0] in par]
@@ -381,7 +432,7 @@ class Tour:
             p = gr.path_to(gr.edges[j][0], par) + [j]
             if self.run_path(p) < len(p):
                 lost += 1
-        return len(paths), lost
+        return len(paths) + len(extra), lost
 
 
 def _show(args):
@@ -392,7 +443,12 @@ def _show(args):
     return "(" + ",".join(f(a) for a in args) + ")"
 
 
-def tour(ck: Check, cls, name, ops, kw, require, oracle, ref):
+def live_keys(gr):
+    return {gkey(G) for st in gr.states.values() for G in st["g"] if G["live"]}
+
+
+def tour_graph(ck: Check, cls, name, ops, kw, require):
+    """TLC: model-check the configuration and dump its labelled state graph."""
     r = ck.tlc("Grammar", cfg(cls, ops, **kw), workers=1, timeout=900, dump=True)
     for a in require:  # vacuity: every action of the alphabet is taken (second number = transitions taken)
         if r.coverage.get(a, [0, 0])[1] == 0:
@@ -402,12 +458,12 @@ def tour(ck: Check, cls, name, ops, kw, require, oracle, ref):
     dot.unlink()
     if len(gr.init) != 1:
         raise MachineryError("one initial state expected")
-    keys = set()
-    for st in gr.states.values():
-        for G in st["g"]:
-            if G["live"]:
-                keys.add(gkey(G))
-    oracle.ensure(sorted(keys))
+    return gr
+
+
+def tour(ck: Check, cls, name, gr, oracle, ref):
+    """Replay the transition tour of a dumped graph on the real grammars."""
+    t0 = time.time()
     t = Tour(ck, cls, name, gr, oracle, ref)
     n_paths, lost = t.run(max_len=40)
     ck.traces += n_paths
@@ -415,7 +471,7 @@ def tour(ck: Check, cls, name, ops, kw, require, oracle, ref):
     ck.extra.setdefault("tours", {})[tag] = {
         "states": len(gr.states), "edges": len(gr.edges), "paths": n_paths, "steps_replayed": t.n_steps,
         "edges_covered": len(t.covered), "edges_behind_known_findings": lost, "probe_validations": t.n_probes,
-        "grammar_definitions": len(keys)}
+        "staleness_paths": t.n_staleness_paths, "grammar_definitions": len(live_keys(gr)), "replay_wall_s": round(time.time() - t0, 1)}
     if gr.edges:
         e = gr.edges[len(gr.edges) // 2]
         ck.sample({"config": tag, "edge": f"{e[2]}{_show(e[3])}", "to_state": gr.states[e[1]]["g"]})
@@ -448,10 +504,13 @@ class ChainGraph:
             self.chains.append(chain)
 
 
-def simulate(ck: Check, cls, oracle, ref, *, nslots, num, depth):
-    """Deep random histories generated by TLC in simulation mode, replayed step by step."""
+def simulate_graph(ck: Check, cls, *, nslots, num, depth):
+    """Deep random histories generated by TLC in simulation mode."""
     js = cls == "json"
-    ops = EDITS + REJECTS + (QUERIES_JSON if js else QUERIES_SIMPLE + ["RejectMerge"])
+    if cls == "pydantic":
+        ops = PYDANTIC_EDITS + ["RejectRestrict", "RejectDelete", "Validate", "Repr"]
+    else:
+        ops = EDITS + REJECTS + (QUERIES_JSON if js else QUERIES_SIMPLE + ["RejectMerge"])
     if nslots == 2:
         ops = ops + ["Copy"]
     simdir = ck.work / f"sim-{cls}-{nslots}"
@@ -461,11 +520,13 @@ def simulate(ck: Check, cls, oracle, ref, *, nslots, num, depth):
            workers=1, timeout=600, simulate=f"num={num},file={simdir}/b", depth=2 * depth, seed=ck.seed,
            count=False, coverage=False)
     files = sorted(simdir.glob("b_*"), key=lambda p: [int(x) for x in re.findall(r"\d+", p.name)])
-    gr = ChainGraph(files)
-    keys = {gkey(G) for st in gr.states.values() for G in st["g"] if G["live"]}
-    oracle.ensure(sorted(keys))
+    return ChainGraph(files)
+
+
+def simulate(ck: Check, cls, nslots, gr, oracle, ref):
+    """Replay the simulated behaviours step by step."""
     t = Tour(ck, cls, f"simulate{nslots}", gr, oracle, ref)
-    t.auto_validate = not js
+    t.auto_validate = cls == "simple"
     done = 0
     for chain in gr.chains:
         done += t.run_path(chain)
@@ -481,14 +542,26 @@ def run(ck: Check):
     rng = random.Random(ck.seed)  # noqa: F841 - reserved for sampled extensions
     ref = Reference(ck)
     complete = True
-    for cls in ("json", "simple"):
+    for cls in ("json", "simple", "pydantic"):
+        # 1. TLC: graphs of the focused configurations, simulated deep histories
+        graphs = [(name, tour_graph(ck, cls, name, ops, kw, require)) for name, ops, kw, require in configs(ck, cls)]
+        sims = []
+        if ck.thorough or cls != "pydantic":
+            sims = [(1, simulate_graph(ck, cls, nslots=1, num=300 if ck.thorough else 30, depth=30 if ck.thorough else 20))]
+            if ck.thorough:
+                sims.append((2, simulate_graph(ck, cls, nslots=2, num=100, depth=12)))
+        # 2. TLC: probe data and verdicts for every grammar definition met (one oracle run per class)
         oracle = Oracle(ck, cls)
-        oracle.ensure([])
-        for name, ops, kw, require in configs(ck, cls):
-            t = tour(ck, cls, name, ops, kw, require, oracle, ref)
+        keys = set()
+        for _, gr in graphs + sims:
+            keys |= live_keys(gr)
+        oracle.ensure(sorted(keys))
+        # 3. replay on the real grammars
+        for name, gr in graphs:
+            t = tour(ck, cls, name, gr, oracle, ref)
             complete = complete and len(t.covered) == len(t.gr.edges)
-        simulate(ck, cls, oracle, ref, nslots=1, num=300 if ck.thorough else 30, depth=30 if ck.thorough else 20)
-        simulate(ck, cls, oracle, ref, nslots=2, num=100 if ck.thorough else 10, depth=12)
+        for nslots, gr in sims:
+            simulate(ck, cls, nslots, gr, oracle, ref)
     ck.extra["reference_verdicts"] = ref.flush()
     from . import c15_more
 
